@@ -44,3 +44,5 @@ MANIFEST = {
              "overlay accessor, the three assumptions about time.Timer listed in the evidence. Not covered: UDP, conn_std.go, nbhttp client connections.",
         design="4/C16, 7"),
 }
+
+READY = True
